@@ -635,10 +635,13 @@ static void mi_arenas_try_purge( bool force, bool visit_all )
     mi_atomic_storei64_release(&mi_arenas_purge_expire, now + mi_arena_purge_delay());  
     size_t max_purge_count = (visit_all ? max_arena : 2);
     bool all_visited = true;
+    bool any_pending = false;
     for (size_t i = 0; i < max_arena; i++) {
       mi_arena_t* arena = mi_atomic_load_ptr_acquire(mi_arena_t, &mi_arenas[i]);
       if (arena != NULL) {
-        if (mi_arena_try_purge(arena, now, force)) {
+        const bool purged = mi_arena_try_purge(arena, now, force);
+        if (mi_atomic_loadi64_relaxed(&arena->purge_expire) != 0) { any_pending = true; } // not yet expired (or re-scheduled)
+        if (purged) {
           if (max_purge_count <= 1) {
             all_visited = false;
             break;
@@ -647,7 +650,7 @@ static void mi_arenas_try_purge( bool force, bool visit_all )
         }
       }
     }
-    if (all_visited) {
+    if (all_visited && !any_pending) {
       // all arena's were visited and purged: reset global expire
       mi_atomic_storei64_release(&mi_arenas_purge_expire, 0);
     }
